@@ -37,7 +37,8 @@ def cases(ctx):
             yield dict(op="cpr_encode %d/1 %d %s %s" % (base, i, cpr.fr(F(la)), cpr.fr(F(lo))),
                        real=("h:cpr.encode_str", [base, i, cpr.fr(F(la)), cpr.fr(F(lo))]), tag="spec-encoder")
             m = frame(rng, tc, e, i)
-            combos = [(rng.choice(OFFS), rng.choice(OFFS)) for _ in range(3)] if not ctx.thorough else [(a, b) for a in OFFS for b in OFFS]
+            combos = [(rng.choice(OFFS), rng.choice(OFFS)) for _ in range(3)] if not ctx.thorough else \
+                rng.sample([(a, b) for a in OFFS for b in OFFS], 8)   # 8 of the 49 offset pairs per frame: the full product took half an hour
             for oa, ob in combos:
                 rla = e["rlat"] + oa * e["dlat"] / 2
                 rlo = e["rlon"] + ob * e["dlon"] / 2
